@@ -16,6 +16,14 @@ def input_vectors(ins, widths, max_bits, samples, rnd):
             yield dict(zip(names, vals))
         return
     seen = set()
+    # structured vectors first: all zeros / all ones, one input at its maximum and the others 0 (and the complement), so that a dropped or
+    # duplicated input of an n-ary block is met whatever the random part draws
+    full = [(1 << w) - 1 for w in ws]
+    for t in [tuple(0 for _ in ws), tuple(full)] + [tuple(full[j] if j == i else 0 for j in range(len(ws))) for i in range(len(ws))] + \
+            [tuple(0 if j == i else full[j] for j in range(len(ws))) for i in range(len(ws))]:
+        if t not in seen:
+            seen.add(t)
+            yield dict(zip(names, t))
     for _ in range(samples):
         vals = []
         for w in ws:
